@@ -1,7 +1,119 @@
 import Driver.Util
-/- Sub-protocol `C08`: not built yet. -/
+import ZxVerif.Spec.Video
+/-
+Sub-protocol `C08`: the controller/screen model against the standard-decode spec.
+  new <m 0|1> <fixed 0|1>        fresh machine (0 = 48K, 1 = 128K); `fixed` selects the repaired poke
+  wait <n>                       wait_internal
+  setclk <t>                     hook verif_set_frame_clocks
+  w <addr> <val> <clk>           CPU memory write cycle
+  wblk <addr> <clk> <hex>        consecutive CPU writes
+  wi <addr> <val>                write_internal (fast-load)
+  wiblk <addr> <hex>             consecutive write_internal
+  out <port> <v>                 write_io (OUT by the CPU; 7ffd = paging latch on the 128K)
+  set7ffd <v>                    write_7ffd as a snapshot loader calls it
+  scr <hex>                      screenshot::scr::load
+  pages (<bank> <hex>)*          snapshot load: whole pages + refresh
+  poke <addr> <val>
+  peek <addr>                    -> <byte>
+  status                         -> <frameClocks> <passedFrames> (no state change)
+every state-changing op answers  <frameClocks> <passedFrames>
+  frame                          -> <fnv of model front canvas> <model flash> <model frame counter>
+  spec                           -> <fnv of stdDecode of the visible bank, phase 0> <phase 1>
+  back                           -> <fnv of model back canvas>
+  px <x> <y>                     -> <model front px> <spec px phase 0> <spec px phase 1>
+  flashok (<n>:<0|1>)*           -> ok | bad      (spec: some alignment of 16-frame windows fits)
+  fetch <y> <col>                -> <spec fetch clock> (decimal fields are hex like everything else)
+-/
 namespace Driver.C08
+open ZxVerif.Video
 
-def proto : Driver.Proto := { σ := Unit, init := (), handle := fun s _ => (s, "unimplemented") }
+structure St where
+  c : Ctl := Ctl.new .k48
+  fixed : Bool := false
+
+def fnvStep (h : UInt64) (b : BitVec 8) : UInt64 := (h ^^^ b.toNat.toUInt64) * 0x100000001b3
+
+def fnvArray (a : Array Px) : UInt64 := a.foldl fnvStep 0xcbf29ce484222325
+
+def specMem (c : Ctl) : Nat → BitVec 8 :=
+  let bank := Spec.visibleBank c.machine c.port7ffd
+  fun off => c.mem.ramByte bank off
+
+def fnvSpec (c : Ctl) (phase : Bool) : UInt64 :=
+  let mem := specMem c
+  Nat.fold (256 * 192) (fun p _ h => fnvStep h (Spec.stdPx mem phase (p % 256) (p / 256))) 0xcbf29ce484222325
+
+def hex64 (h : UInt64) : String := toHex 16 h.toNat
+
+def status (c : Ctl) : String := s!"{toHex 5 c.frameClocks} {toHex 4 c.passedFrames}"
+
+def step (s : St) (op : Op) : St × String :=
+  let c := s.c.step s.fixed op
+  ({ s with c := c }, status c)
+
+def writeBlock (c : Ctl) (addr : Nat) (clk : Nat) : List (BitVec 8) → Ctl
+  | [] => c
+  | b :: bs => writeBlock (c.write (BitVec.ofNat 16 addr) b clk) (addr + 1) clk bs
+
+def writeInternalBlock (c : Ctl) (addr : Nat) : List (BitVec 8) → Ctl
+  | [] => c
+  | b :: bs => writeInternalBlock (c.writeInternal (BitVec.ofNat 16 addr) b) (addr + 1) bs
+
+def pages? : List String → Option (List (Nat × List (BitVec 8)))
+  | [] => some []
+  | b :: h :: rest => do
+    let r ← pages? rest
+    some ((hexNatD b, hexBytes h) :: r)
+  | _ => none
+
+def obs? (s : String) : Option (Nat × Bool) :=
+  match s.splitOn ":" with
+  | [n, b] => do some ((← hexNat? n), (← bool? b))
+  | _ => none
+
+def handle (s : St) : List String → St × String
+  | ["new", m, f] =>
+    let c := Ctl.new (if m = "1" then .k128 else .k48)
+    ({ c := c, fixed := boolD f }, status c)
+  | ["wait", n] => step s (.wait (hexNatD n))
+  | ["setclk", t] =>
+    let c := { s.c with frameClocks := hexNatD t }
+    ({ s with c := c }, status c)
+  | ["w", a, v, k] => step s (.cpuWrite (bv16 a) (bv8 v) (hexNatD k))
+  | ["wblk", a, k, h] =>
+    let c := writeBlock s.c (hexNatD a) (hexNatD k) (hexBytes h)
+    ({ s with c := c }, status c)
+  | ["wi", a, v] => step s (.tapeWrite (bv16 a) (bv8 v))
+  | ["wiblk", a, h] =>
+    let c := writeInternalBlock s.c (hexNatD a) (hexBytes h)
+    ({ s with c := c }, status c)
+  | ["out", p, v] => step s (.out (bv16 p) (bv8 v))
+  | ["set7ffd", v] => step s (.set7ffd (bv8 v))
+  | ["scr", h] => step s (.loadScr (hexBytes h))
+  | "pages" :: rest =>
+    match pages? rest with
+    | some ps => step s (.loadPages ps)
+    | none => (s, "bad-op")
+  | ["poke", a, v] => step s (.poke (bv16 a) (bv8 v))
+  | ["status"] => (s, status s.c)
+  | ["peek", a] => (s, hex8 (s.c.mem.read (bv16 a)))
+  | ["frame"] =>
+    let c := s.c
+    (s, s!"{hex64 (fnvArray c.screen.front)} {bit c.screen.flash} {toHex 4 c.screen.frameCounter}")
+  | ["spec"] => (s, s!"{hex64 (fnvSpec s.c false)} {hex64 (fnvSpec s.c true)}")
+  | ["back"] => (s, hex64 (fnvArray s.c.screen.back))
+  | ["px", x, y] =>
+    let x := hexNatD x
+    let y := hexNatD y
+    let mem := specMem s.c
+    (s, s!"{hex8 (s.c.screen.front.getD (y * 256 + x) 0xEE)} {hex8 (Spec.stdPx mem false x y)} {hex8 (Spec.stdPx mem true x y)}")
+  | "flashok" :: rest =>
+    match rest.mapM obs? with
+    | some obs => (s, if Spec.flashOk obs then "ok" else "bad")
+    | none => (s, "bad-op")
+  | ["fetch", y, col] => (s, toHex 5 (Spec.fetchClock s.c.machine (hexNatD y) (hexNatD col)))
+  | _ => (s, "bad-op")
+
+def proto : Driver.Proto := { σ := St, init := {}, handle := handle }
 
 end Driver.C08
